@@ -19,11 +19,16 @@ Fixpoint find_by_alias (us : list unit) (alias : string) : option unit :=
   | u :: r => if existsb (String.eqb alias) (u_aliases u) then Some u else find_by_alias r alias
   end.
 
-(* UnitType.sniffUnit: lower-case, strip ONE trailing "s" when longer than 2 bytes. *)
+(* UnitType.sniffUnit: a canonical name verbatim; else lower-case, strip ONE trailing "s" when longer
+   than 2 bytes, and look the alias up. *)
 Definition sniff_unit (ut : unit_type) (s : string) : option unit :=
-  let l := to_lower s in
-  let l := if (2 <? Z.of_nat (String.length l)) then trim_suffix "s" l else l in
-  find_by_alias (ut_units ut) l.
+  match find (fun u => String.eqb s (u_name u)) (ut_units ut) with   (* a canonical name, verbatim *)
+  | Some u => Some u
+  | None =>
+      let l := to_lower s in
+      let l := if (2 <? Z.of_nat (String.length l)) then trim_suffix "s" l else l in
+      find_by_alias (ut_units ut) l
+  end.
 
 (* UnitType.autoScale: loop keeps the LAST unit with the largest factor such that
    value/factor >= 1 (the test is [u.Factor >= f], so later equal factors win). *)
